@@ -168,6 +168,64 @@ def node_check(obs):
     return vs
 
 
+def multi_execute(nconn, prefix):
+    """`nconn` ready connections pass their idle time-out in the same instant: one pass of the I/O loop sends a watchdog request on
+    each of them while the connections' writer threads have not encoded anything yet; answered, and a second round.  Every schedule
+    within the bound at line granularity in send_dwr / send_message / the writers; oracle: identifiers as they appear on the wire."""
+    from .. import scenario
+    import diameter.node.node as nn
+    import diameter.node.peer as pp
+    _set_points()
+    sk.set_line_points({sk.code_of(nn.Node, "send_dwr"): None, sk.code_of(nn.Node, "send_message"): None, sk.code_of(nn.Node, "_check_timers"): None,
+                        sk.code_of(pp.PeerConnection, "work_write_queue"): None, sk.code_of(pp.PeerConnection, "add_out_msg"): None})
+    ch = scheddfs.Chooser(prefix)
+    cfg = {"node": {"ips": ["10.0.0.1"], "tcp_port": 3868, "idle_timeout": 3, "dwa_timeout": 50, "wakeup": 1},
+           "peers": [{"name": f"peer{i + 1}.example.org"} for i in range(nconn)],
+           "apps": [{"id": env.APP_ACCT, "acct": True, "peers": list(range(nconn))}]}
+    sc = scenario.Scenario(cfg, chooser=ch, max_socks=nconn)
+    try:
+        nw = sc.start()
+        for i in range(nconn):
+            sc.apply(("accept",))
+            sc.apply(("m", i, f"cer_p{i}"))
+        ids = []
+        for rnd in range(2):
+            nw.world.jump(4)
+            nw.world.points_on = True
+            ch.window = rnd == 0
+            nw.run()
+            ch.window = False
+            nw.world.points_on = False
+            sc.sync()
+            for i in range(nconn):
+                sc.apply(("m", i, "dwa"))
+        for s in sc.socks:
+            for f in s.out:
+                if f.h.is_request and f.h.code == 280:
+                    ids.append((s.idx, f.h.hbh, f.h.e2e))
+        return ("dwr-on-%d-connections" % nconn, tuple(ids), tuple(nw.thread_failures())), ch
+    finally:
+        sc.close()
+
+
+def multi_check(obs):
+    scenario_, ids, fails = obs
+    vs = []
+    e2e = [e for _, _, e in ids]
+    if len(set(e2e)) != len(e2e) or 0 in e2e:
+        vs.append((f"node:{scenario_}:duplicate-or-zero-end-to-end", f"watchdog requests on the wire (connection, hop-by-hop, end-to-end): {ids}"))
+    per = {}
+    for c, h, _ in ids:
+        per.setdefault(c, []).append(h)
+    if any(len(set(h)) != len(h) or 0 in h for h in per.values()):
+        vs.append((f"node:{scenario_}:duplicate-or-zero-hop-by-hop-on-one-connection", f"{ids}"))
+    if len(ids) != 2 * len(per) or len(per) == 0:
+        vs.append((f"node:{scenario_}:not-one-watchdog-request-per-connection-and-round", f"{ids}"))
+    if fails:
+        vs.append((f"node:{scenario_}:thread-died", f"{fails}"))
+    return vs
+
+
 # ------------------------------------------------------------------ sequential sweep
 def sweep(rep: Report):
     hh = _hh()
@@ -292,13 +350,18 @@ def run(tier):
     for cfg in (("callers", 2), ("dwr", 1)):
         tasks.append((functools.partial(node_execute, cfg), node_check, node_bound))
         labels.append(("node", cfg, node_bound))
+    for nconn in (2, 3):
+        # (three connections under the default schedule only in the quick tier: 43,800 schedules at bound 1)
+        mb = 1 if nconn == 2 else (1 if tier == "thorough" else 0)
+        tasks.append((functools.partial(multi_execute, nconn), multi_check, mb))
+        labels.append(("multi", nconn, mb))
     for (kind, cfg, b), r in zip(labels, (scheddfs.explore_many(tasks) if tier != "thorough" else scheddfs.explore_many_capped(tasks, 2, 900))):
         execs += r["executions"]
         outcomes += len(r["outcomes"])
         maxpts = max(maxpts, r["max_points"])
         for (key, detail), choices in r["violations"]:
             rep.add(Violation(key, f"cfg={cfg} bound={b} schedule={choices}: {detail}",
-                              {"kind": kind, "cfg": list(cfg), "choices": choices}))
+                              {"kind": kind, "cfg": list(cfg) if isinstance(cfg, (tuple, list)) else cfg, "choices": choices}))
         rep.sample({"cfg": cfg, "bound": b, "bound_completed_without_cap": r.get("bound_completed", b), "capped": r.get("capped", False), "executions": r["executions"], "distinct_outcomes": len(r["outcomes"]),
                     "branching_points": r["max_points"]}, 40)
     n = sweep(rep)
@@ -323,6 +386,9 @@ def replay(case):
         cfg = tuple(case["cfg"])
         obs, ch = _replay_choices(functools.partial(node_execute, cfg), case["choices"])
         return [Violation(k, d) for k, d in node_check(obs)]
+    if kind == "multi":
+        obs, ch = _replay_choices(functools.partial(multi_execute, case["cfg"]), case["choices"])
+        return [Violation(k, d) for k, d in multi_check(obs)]
     rep = Report("C16", "quick", "model_checking")
     sweep(rep)
     return list(rep.violations.values())
